@@ -25,7 +25,7 @@ func (S) Level() string { return "exploration" }
 
 func (S) Info() scen.Info {
 	return scen.Info{
-		Rule: "unit = one -race child process: shared objects (generic tree, reflection-bound struct with type and representation views, generated-code node, compiled selector, type system, shared prototype, default multicodec registry, link system over a read-only store, one *traversal.Config) built on the main goroutine, then 2-6 tasks of 3-10 seeded read-only operations each (24 operation kinds) interleaved by the blind-baton scheduler at function-entry yields inside the library; three profiles (fully configured / Config relying on defaults / inferred schemas as well). " +
+		Rule: "unit = one -race child process: shared objects (generic tree, reflection-bound struct with type and representation views, generated-code node, compiled selector, type system, shared prototype, default multicodec registry, link system over a read-only store (memstore or the filesystem store on real files), one *traversal.Config) built on the main goroutine, then 2-6 tasks of 3-10 seeded read-only operations each (26 operation kinds, including encoding into a writer that fails) interleaved by the blind-baton scheduler at function-entry yields inside the library; three profiles (fully configured / Config relying on defaults / inferred schemas as well). " +
 			"distinct_nontrivial counts distinct hash(profile, per-task operation lists, interleaving hash) over runs with at least 2 scheduler switches between tasks.",
 		DistinctSet: "schedule",
 		Assumptions: []string{
@@ -40,7 +40,7 @@ func (S) Info() scen.Info {
 			"race detection":       "real: Go race detector in the child process",
 		},
 		QuickUnits: 5000, ThoroughUnits: 600000, QuickSecs: 60, ThoroughSecs: 1500,
-		ProbeKeys:    []string{"probe.profile0", "probe.profile1", "probe.profile2", "probe.switches_ge_10", "probe.walk_vs_walk", "probe.wrap_vs_wrap"},
+		ProbeKeys:    []string{"probe.profile0", "probe.profile1", "probe.profile2", "probe.switches_ge_10", "probe.walk_vs_walk", "probe.wrap_vs_wrap", "probe.backend_fsstore", "probe.backend_memstore"},
 		EventsKey:    "events",
 		ShrinkBudget: 30,
 	}
@@ -203,6 +203,7 @@ func (S) RunTape(t *sim.Tape, st *sim.Stats, keepLog bool) *sim.Outcome {
 	o.LogHash, o.Log, o.Events, o.Capped = log.H, log.Lines, cr.Events, cr.Capped
 	st.Inc("runs")
 	st.Inc(fmt.Sprintf("probe.profile%d", cr.Profile))
+	st.Inc("probe.backend_" + cr.Backend)
 	st.Add("events", int64(cr.Events))
 	st.Add("switches", int64(cr.Switches))
 	if cr.Switches >= 10 {
